@@ -43,8 +43,14 @@
 (* repository (the global one: every child's too); clear() destroys the    *)
 (* children and keeps the global repository.  The functions are data here: *)
 (* a comparison MODE ("whole": all fields of the object, "first": its      *)
-(* first field only) and a copy MODE ("plain": the bytes, "inv": every     *)
-(* byte inverted).  An expectation binds the function in force in its      *)
+(* first field only, "never" / "always": a constant answer, "less": the    *)
+(* expected first field below the actual one - comparators need be neither *)
+(* reflexive nor symmetric) and a copy MODE ("plain": the bytes, "inv":    *)
+(* every byte inverted).  The comparator in force ALONE decides whether an *)
+(* actual object matches an expected one, from the two objects it is       *)
+(* handed (expected, actual) - also when both are one and the same object  *)
+(* (object values carry an identity, id, which nothing here consults).     *)
+(* An expectation binds the function in force in its                       *)
 (* scope when the parameter is attached (value field cmp / output field    *)
 (* cpy); an actual parameter of a user type needs a comparator in its      *)
 (* scope ("nocompare" otherwise).  Type names are data (strings).          *)
@@ -74,9 +80,12 @@ Global == ""
 \* (lo, hi) = strict-order window, (0, 0) when created without strict ordering
 \* call (in progress / completed): [fn, obj (0 = not called on an object), given : name -> value, gout : name -> ty]
 \* ---------------------------------------------------------------- user types: comparators and copiers
-\* object value: [t = "obj", tn (type name), c (content: a tuple of fields)]; in an expectation also cmp, the comparison
+\* object value: [t = "obj", tn (type name), c (content: a tuple of fields), id (which object holds that content: 0 = an object
+\* of its own, n > 0 = the n-th shared object with that content; may be absent)]; in an expectation: tn, c and cmp, the comparison
 \* mode bound when the parameter was attached ("none": no comparator was installed then - such a value equals nothing)
-CmpModes == {"whole", "first"}
+CmpModes == {"whole", "first", "never", "always", "less"}
+\* the modes the enumerated domain installs (a configuration may narrow it)
+CmpExplored == CmpModes
 CpyModes == {"plain", "inv"}
 CmpNode(tn, md) == [tn |-> tn, cmp |-> md, cpy |-> "none"]
 CpyNode(tn, md) == [tn |-> tn, cmp |-> "none", cpy |-> md]
@@ -87,10 +96,14 @@ CpyOf(repo, tn) == LET I == { i \in 1..Len(repo) : repo[i].tn = tn /\ repo[i].cp
 \* a new child scope receives the global scope's entries one by one, each put in front of the previous ones
 \* (MockSupport::clone -> installComparatorsAndCopiers): its list is the global list in reverse
 Inherited(repo) == [i \in 1..Len(repo) |-> repo[Len(repo) + 1 - i]]
+\* the verdict of comparator md on (x: the expected object, y: the actual one): a function of the two contents and of nothing
+\* else - not of whether x and y are the same object ("never" says no to an object compared with itself, and so does "less")
 ObjEq(md, x, y) == /\ x.tn = y.tn
                    /\ CASE md = "whole" -> x.c = y.c
                         [] md = "first" -> x.c[1] = y.c[1]
-                        [] OTHER -> FALSE
+                        [] md = "always" -> TRUE
+                        [] md = "less" -> x.c[1] < y.c[1]
+                        [] OTHER -> FALSE          \* "never"; "none": no comparator bound
 \* Doubles as the C++ interface - the reference of C19 - compares them: doubles_equal(expected, actual, tolerance of the
 \* expectation).  NaN (a value or the tolerance) equals nothing; an infinity equals the same infinity; otherwise
 \* |expected - actual| <= tolerance: tolerance 0 is the exact comparison, a negative tolerance (also -inf) admits nothing -
@@ -130,8 +143,14 @@ DoubleMayCoincide(x, y) ==
     /\ \/ XSame(x.v, y.v)
        \/ (x.tol.k = "inf" /\ ~x.tol.neg) \/ (y.tol.k = "inf" /\ ~y.tol.neg)
        \/ (x.v.k = "fin" /\ y.v.k = "fin" /\ Abs(x.v.q - y.v.q) <= x.tol.q + y.tol.q)
-ObjMayCoincide(x, y) == /\ x.tn = y.tn /\ x.cmp # "none" /\ y.cmp # "none" /\ x.c[1] = y.c[1]
+\* some actual object is accepted by both expected values, each with its own comparator ("whole" / "first" pin the actual
+\* object's first field, "less" bounds it from below, "always" leaves it free, "never" / "none" accept nothing)
+Pins(md) == md \in {"whole", "first"}
+ObjMayCoincide(x, y) == /\ x.tn = y.tn /\ {x.cmp, y.cmp} \cap {"none", "never"} = {}
+                        /\ (Pins(x.cmp) /\ Pins(y.cmp)) => x.c[1] = y.c[1]
                         /\ (x.cmp = "whole" /\ y.cmp = "whole") => x.c = y.c
+                        /\ (x.cmp = "less" /\ Pins(y.cmp)) => x.c[1] < y.c[1]
+                        /\ (y.cmp = "less" /\ Pins(x.cmp)) => y.c[1] < x.c[1]
 MayCoincide(x, y) == IF x.t = "double" /\ y.t = "double" THEN DoubleMayCoincide(x, y)
                      ELSE IF x.t = "obj" /\ y.t = "obj" THEN ObjMayCoincide(x, y)
                      ELSE EqP(x, y) \/ EqP(y, x)
@@ -391,14 +410,38 @@ RemoveAll(s) ==
     \/ /\ ~failed /\ last' = "removeall" /\ res' = [k |-> "ok", s |-> s] /\ UNCHANGED <<failed, why>> /\ created' = CreatedAfter(s)
        /\ LET t == Touched(s) IN
           ms' = [x \in Scopes |-> IF t[x].live /\ (x = s \/ s = Global) THEN [t[x] EXCEPT !.repo = <<>>] ELSE t[x]]
+\* ---------------------------------------------------------------- how often a deviation is reported
+\* A verdict step (checkExpectations, expectedCallsLeft, the end-of-test check of MockSupportPlugin) may run under a
+\* reporter that does not end the test (the plugin's reporter adds the failure to the test result, a recording reporter
+\* keeps it): the step then goes on after its first report.  What it may deliver is the sequence of the deviations that
+\* are present, each ONCE, as a sequence of sets of admissible categories:
+\*  - every scope (the global one, then the children in creation order) whose call in progress cannot be completed;
+\*  - only if there is no such call: the unfulfilled expectations (one report for all of them) - an expectation that a
+\*    failed call was meant for has been reported with that call and is not reported again as unfulfilled;
+\*  - the calls out of order (one report) - not after the unfulfilled report, which ends the scenario.
+StuckCalls(mss) == LET bad == SelectSeq(Visit, LAMBDA s : Finish(mss[s]).cats # {})
+                   IN [i \in 1..Len(bad) |-> Finish(mss[bad[i]]).cats]
+Finished(mss) == [s \in Scopes |-> Finish(mss[s]).m]
+Deviations(mss) == LET stuck == StuckCalls(mss)
+                       fin == Finished(mss)
+                       ooo == IF \E s \in Scopes : fin[s].ooo # {} THEN <<{"outoforder"}>> ELSE <<>>
+                   IN IF stuck # <<>> THEN stuck \o ooo
+                      ELSE IF \E s \in Scopes : Unfulfilled(fin[s]) THEN <<{"unfulfilled"}>> ELSE ooo
+\* R (the categories reported, in order) picks deviations of dev in order, each at most once
+RECURSIVE Picks(_, _)
+Picks(R, dev) == IF R = <<>> THEN TRUE
+                 ELSE IF dev = <<>> THEN FALSE
+                 ELSE (Head(R) \in Head(dev) /\ Picks(Tail(R), Tail(dev))) \/ Picks(R, Tail(dev))
+\* the first deviation is reported - once -, then possibly further ones, each once; nothing is reported when there is none
+ReportedOnce(R, dev) == IF dev = <<>> THEN R = <<>>
+                        ELSE R # <<>> /\ Head(R) \in Head(dev) /\ Picks(Tail(R), Tail(dev))
+\* checkExpectations / expectedCallsLeft in state ms under a reporter that goes on (R: what it received during the step)
+CheckReportsOK(R) == ReportedOnce(R, Deviations(ms))
+LeftReportsOK(R) == ReportedOnce(R, StuckCalls(ms))
 \* the end of the test: the verdict is the first failure, or else what checkExpectations says now (MockSupportPlugin);
-\* then everything is cleared for the next test
-\* number of failures the test records: the first failure ends a test at once; the end-of-test check reports each
-\* deviation it meets once (every scope whose call in progress cannot be completed, then possibly the order)
-FailingFinishes == Cardinality({ s \in Scopes : ms[s].live /\ Finish(ms[s]).cats # {} })
-EndCountOK(r, v) == IF r = "ok" THEN v = 0
-                    ELSE IF failed \/ FailingFinishes = 0 THEN v = 1
-                    ELSE v \in 1..(FailingFinishes + 1)
+\* then everything is cleared for the next test.  R: the failures the test has recorded - the first failure ends a
+\* test at once (nothing is checked at the end of a failed test), otherwise what the end-of-test check delivers
+EndReportsOK(R) == IF failed THEN R = <<why>> ELSE CheckReportsOK(R)
 End == /\ last' = "end" /\ created' = <<>> /\ ms' = FreshScopes /\ failed' = FALSE /\ why' = ""
        /\ IF failed THEN res' = [k |-> why]
           ELSE LET f == FinishAll(ms, Visit, 1)
@@ -430,7 +473,7 @@ Next ==
     /\ ~failed /\ last # "check"
     /\ \/ \E s \in Scopes, e \in ExpSet : /\ NExp(s) < MaxExp /\ (LateExpect \/ NCalls = 0)
                                           /\ CopiersPresent(s, e) /\ Unambiguous(WouldBe(s, e)) /\ Expect(s, e)
-       \/ \E s \in Scopes, tn \in ObjTNames, md \in CmpModes : NInst(s) < MaxInst /\ InstallComparator(s, tn, md)
+       \/ \E s \in Scopes, tn \in ObjTNames, md \in CmpExplored : NInst(s) < MaxInst /\ InstallComparator(s, tn, md)
        \/ \E s \in Scopes, tn \in OTypes \ {"raw"}, md \in CpyModes : NInst(s) < MaxInst /\ InstallCopier(s, tn, md)
        \/ \E s \in Scopes : MaxInst > 0 /\ NoExpectations /\ NInst(s) > 0 /\ RemoveAll(s)
        \/ \E s \in Scopes, k \in DKeys, v \in DVals : SetData(s, k, v)
@@ -511,6 +554,10 @@ EarlyFailureJustified ==
             (last = "begin" /\ res.k \in {"unexpected", "additional"}) =>
                 \A i \in Names(m, c.fn) : CountFits(m, i) >= ClassN(m, i)
 FailsOnce == failed => res.k \notin {"ok"}
+\* the verdict of checkExpectations is the first of the deviations present (none: it passes), whichever reporter listens
+VerdictIsFirstDeviation ==
+    [][(~failed /\ last' = "check") =>
+           LET dev == Deviations(ms) IN IF dev = <<>> THEN res'.k = "ok" ELSE res'.k \in Head(dev)]_vars
 \* a value read back from a finished call is the consumed expectation's return value: the same integer for the integer
 \* getters, the value itself otherwise (or the caller's default when there is none)
 ReturnNeverLies ==
